@@ -2,6 +2,8 @@
 
 from __future__ import annotations
 
+import enum
+
 from ..obs import guarded, is_exc
 from ..oracles import rfc3986 as rfc
 
@@ -18,6 +20,27 @@ ASSUMPTIONS = ["port texts in Python's lenient int() grammar are a gray zone: if
 DEFAULT = {"http": 80, "https": 443, "ws": 80, "wss": 443, "ftp": 21}
 SCHEMES = ["http", "https", "ws", "wss", "ftp", "foo", "file", ""]
 PORTS_OK = [None, 0, 1, 20, 21, 22, 79, 80, 81, 442, 443, 444, 8080, 65534, 65535]
+
+
+class _PortEnum(enum.IntEnum):
+    ZERO = 0
+    WEB = 80
+    TLS = 443
+    ALT = 8080
+    MAX = 65535
+
+
+class _LoudInt(int):
+    def __str__(self):
+        return "port#%d" % int(self)
+
+    __repr__ = __str__
+
+    def __format__(self, spec):
+        return "<%d>" % int(self)
+
+
+TYPED_PORTS = [_PortEnum.ZERO, _PortEnum.WEB, _PortEnum.TLS, _PortEnum.ALT, _PortEnum.MAX, _LoudInt(21), _LoudInt(8081)]
 HOSTS = [("reg", "example.com", "example.com"), ("ipv4", "127.0.0.1", "127.0.0.1"), ("ipv6", "[::1]", "::1"), ("ipv6zone", "[fe80::1%eth0]", "fe80::1%eth0"),
          ("idn", "é.com", "é.com"), ("dot", "example.com.", "example.com.")]
 UIS = [("none", "", None, None), ("u", "u@", "u", None), ("up", "u:p@", "u", "p")]
@@ -241,6 +264,22 @@ def run(ctx):
                 if pw:
                     kw["password"] = pw
                 base = guarded(URL, pre + "/p")
+                # ---------- ports of an int SUBCLASS (IntEnum members, wrappers with their own str()): the port is its integer value ----------
+                if not is_exc(base):
+                    for tp in TYPED_PORTS:
+                        pv = int(tp)
+                        tsig = (scheme, "typed:" + type(tp).__name__, pv, hk, uk)
+                        for route, fn in (("with_port(typed)", lambda: base.with_port(tp)), ("build(typed)", lambda: URL.build(port=tp, path="/p", **kw)),
+                                          ("build(typed,encoded)", lambda: URL.build(port=tp, path="/p", encoded=True, **kw) if hk != "idn" and ":" not in hbuild and not (user or pw) else None)):
+                            tu = guarded(fn)
+                            if tu is None:
+                                continue
+                            tcase = {"route": route, "base": pre + "/p", "port": repr(tp)}
+                            if is_exc(tu):
+                                ctx.ev((route,) + tsig + ("exc",))
+                                ctx.fail("valid_rejected", tcase, f"{route} with {tp!r} raised {tu!r}")
+                            else:
+                                verify(ctx, route, tcase, tu, scheme, pv if route.startswith("with_port") else _build_exp(tu, scheme, pv), hk, (route,) + tsig)
                 # ---------- valid ports ----------
                 for p in PORTS_OK:
                     cls = "absent" if p is None else ("default" if DEFAULT.get(scheme) == p else ("zero" if p == 0 else "other"))
